@@ -634,7 +634,10 @@ def eval_cmp(ctx, cases):
             mo = model_outcome(ml)
             if mo != out:
                 # float rounding of the converted operand can flip an exact-arithmetic decision on the tolerance boundary
-                x = F(a[1]); y = F(b[1]) * F(*_fac(b[0], b[2])) / F(*_fac(a[0], a[2]))
+                # (in the unit of the operand whose method runs: CPython dispatches to the right operand's reflected method
+                # when its class is a proper subclass of the left's — `Time == TimeInterval` compares in the interval's unit)
+                ra, rb = (b, a) if (b[0] in BASE and a[0] not in BASE) else (a, b)
+                x = F(ra[1]); y = F(rb[1]) * F(*_fac(rb[0], rb[2])) / F(*_fac(ra[0], ra[2]))
                 d = abs(x - y)
                 if a[2] != b[2] and abs(d - F(TOL)) <= F(1, 10 ** 13) * max(abs(x), abs(y), F(TOL)):
                     ctx.count('cmp model/impl differ on the tolerance boundary (rounding)')
